@@ -102,7 +102,11 @@ func genC11(out, tier string, rng *rand.Rand) {
 		p2, o2 := c11Chains(e, j.names)
 		prog, obs = append(prog, p2...), append(obs, o2...)
 		// error cases of the listing endpoint
-		for _, r := range []Req{{Kind: "list", B: "no-such-bucket"}, {Kind: "list_bad_token", B: "bkt"},
+		for _, r := range []Req{{Kind: "list", B: "no-such-bucket"}, {Kind: "list", B: "no-such-bucket", Prefix: "a/"}, {Kind: "list", B: "no-such-bucket", Prefix: "a/b/c", Delim: "/"},
+			{Kind: "list", B: "no-such-bucket", Prefix: "foo/", MaxRes: strp("1")}, {Kind: "list", B: "bkt", Prefix: "no/such/dir/"}, {Kind: "list", B: "bkt", Prefix: "a.txt/x"},
+			{Kind: "delete_bucket", B: "bkt", CP: noConds}, {Kind: "list", B: "bkt"}, {Kind: "list", B: "bkt", Prefix: "a/"}, {Kind: "list", B: "bkt", Prefix: "foo/y", Delim: "/"},
+			{Kind: "upload_media", B: "bkt", N: "a/again", CType: "text/plain", Data: []byte("back"), CP: noConds}, {Kind: "list", B: "bkt", Prefix: "a/"}, {Kind: "list", B: "bkt"},
+			{Kind: "list_bad_token", B: "bkt"},
 			{Kind: "list", B: "bkt", MaxRes: strp("0")}, {Kind: "list", B: "bkt", MaxRes: strp("x")}, {Kind: "list", B: "bkt", MaxRes: strp("-3")}} {
 			prog = append(prog, r)
 			obs = append(obs, e.Exec(r))
@@ -118,7 +122,7 @@ func genC11(out, tier string, rng *rand.Rand) {
 			sink.AddPre(results[i].c, results[i].text, results[i].js, len(j.names) >= 2)
 		}
 	}
-	sink.Close(fmt.Sprintf("bucket contents = subsets of a 10-name universe per store (memory: %v; file: %v; thorough = all 1023 subsets, quick = the full universe + 24 random subsets per store); for each subset every (prefix in %v) x (delimiter in %q) x maxResults 1..4 is listed by following nextPageToken to the end, plus the 404/400 cases; distinct = distinct canonical text; non-trivial = at least two names", c11NamesMem, c11NamesFile, c11Prefixes, c11Delims), exhaustive)
+	sink.Close(fmt.Sprintf("bucket contents = subsets of a 10-name universe per store (memory: %v; file: %v; thorough = all 1023 subsets, quick = the full universe + 24 random subsets per store); for each subset every (prefix in %v) x (delimiter in %q) x maxResults 1..4 is listed by following nextPageToken to the end, plus the 404/400 cases (missing and deleted bucket with and without a prefix that names directories, bad token, bad page size) and a re-creation by upload after the bucket was deleted; distinct = distinct canonical text; non-trivial = at least two names", c11NamesMem, c11NamesFile, c11Prefixes, c11Delims), exhaustive)
 }
 
 func strp(s string) *string { return &s }
